@@ -130,8 +130,10 @@ impl<T: Qcow2IoOps> Qcow2Dev<T> {
                 MappingSource::Compressed => {
                     if let Some(off) = mapping.cluster_offset {
                         let start = off >> info.cluster_bits();
-                        let end = (off + (mapping.compressed_length.unwrap() as u64))
-                            >> info.cluster_bits();
+                        // `off + len` is the exclusive end of the extent, the
+                        // last cluster touched holds byte `off + len - 1`
+                        let len = (mapping.compressed_length.unwrap() as u64).max(1);
+                        let end = (off + len - 1) >> info.cluster_bits();
                         for off in start..=end {
                             Self::add_used_cluster_to_set(ranges, off);
                         }
